@@ -21,7 +21,7 @@ MANIFEST = {
             "nondeterminism): pure_sound / writes_sound; the per-function obligation pureCheck = true is then discharged by kernel "
             "evaluation for all regenerated terms (all_generated_pure), so an in-place write or global-RNG use that the translator "
             "recognises (its whitelists of views / in-place operations / RNG uses, regression-tested on every run against a corpus of "
-            "25 impure and 7 pure idioms: corpus_impure_flagged, corpus_pure_accepted) breaks a proof obligation on the next run in "
+            "74 impure and 15 pure idioms: corpus_impure_flagged, corpus_pure_accepted) breaks a proof obligation on the next run in "
             "ANY function. Dynamic side: every public function is wrapped in-process, the repository's "
             "own test-suite plus a call table with C/F-ordered and strided sentinel arrays is replayed; argument values, shape, dtype "
             "and strides are compared before/after, every top-level call is repeated on equal arguments, NumPy's global RNG state is "
@@ -79,6 +79,30 @@ def _equal(a, b, rtol=1e-12):
     return True      # opaque objects (instances, generators) are not compared
 
 
+def _pysnap(v, depth=0):
+    """a comparable snapshot of a MUTABLE Python container passed as an argument (list / dict / set / bytearray, nested): element
+    identities are irrelevant, values and order are not.  None for anything else (immutable, or too large to be worth it)."""
+    if isinstance(v, numpy.ndarray):
+        return ("nd",) + _snap(v)[:3] + (v.tobytes() if v.size <= 100_000 else None,)
+    if isinstance(v, (list, tuple)):
+        if len(v) > 512 or depth > 3:
+            return ("big", type(v).__name__, len(v))
+        return (type(v).__name__,) + tuple(_pysnap(x, depth + 1) for x in v)
+    if isinstance(v, dict):
+        if len(v) > 128 or depth > 3:
+            return ("big", "dict", len(v))
+        return ("dict",) + tuple((repr(k), _pysnap(x, depth + 1)) for k, x in v.items())
+    if isinstance(v, (set, bytearray)):
+        return (type(v).__name__, repr(sorted(v, key=repr)) if isinstance(v, set) else bytes(v))
+    if isinstance(v, (int, float, complex, str, bytes, bool, type(None), numpy.generic)):
+        return ("v", type(v).__name__, repr(v))
+    return ("o", type(v).__name__)
+
+
+def _has_mutable(v, depth=0):
+    return isinstance(v, (list, dict, set, bytearray)) or (isinstance(v, tuple) and depth < 3 and any(_has_mutable(x, depth + 1) for x in v))
+
+
 class Recorder:
     def __init__(self):
         self.mutations = {}      # (qualname, param path) -> example
@@ -116,6 +140,8 @@ class Recorder:
             for k, v in named:
                 _arrays(v, k, arrs)
             before = [(p, a, _snap(a)) for p, a in arrs]
+            # round 5: lists / dicts given as arguments (a list of mode indices, of coefficients, of masks): also the caller's
+            pybefore = [(k, v, _pysnap(v)) for k, v in named if _has_mutable(v)]
             pre = None
             seeded = all(not (k in ("seed", "random_seed") and v is None) for k, v in named)
             if depth == 0 and not is_method and seeded and rec.calls[qual] <= 40:
@@ -137,6 +163,9 @@ class Recorder:
                 if now != s:
                     what = "values" if now[:3] == s[:3] else "shape/dtype/strides %s -> %s" % (s[:3], now[:3])
                     rec.mutations.setdefault((qual, p.split("[")[0]), {"what": what, "args": _describe(named), "path": p})
+            for k, v, snap in pybefore:
+                if _pysnap(v) != snap:
+                    rec.mutations.setdefault((qual, k), {"what": "contents of the %s" % type(v).__name__, "args": _describe(named), "path": k})
             if pre is not None:
                 _tls.off = True
                 try:
@@ -193,15 +222,84 @@ def instrument(rec):
     return {q for q, _ in targets.values()}
 
 
-def layouts(a, rng):
-    """the same values as C-ordered, Fortran-ordered and as a strided view of a larger buffer"""
-    yield "C", numpy.ascontiguousarray(a)
-    if a.ndim >= 2:
-        yield "F", numpy.asfortranarray(a)
-    big = numpy.zeros(tuple(2 * s for s in a.shape), dtype=a.dtype)
-    view = big[tuple(slice(None, None, 2) for _ in a.shape)]
-    view[...] = a
-    yield "strided", view
+LAYOUT_LABELS = ("C", "F", "strided", "neg", "F-slice", "readonly", "swapped")
+
+
+def relayout(a, label):
+    """the values of `a` in a NEW buffer laid out as `label` says (None if the label does not apply to this array).  Built afresh
+    for every call: copy.deepcopy of a strided / read-only view returns a compact writable C-ordered array, i.e. would silently
+    turn every layout back into 'C'."""
+    a = numpy.array(a, copy=True, order="C")
+    if label == "C":
+        return a
+    if label == "F":
+        return numpy.asfortranarray(a) if a.ndim >= 2 else None
+    if label == "strided":                  # every second element of a larger buffer
+        big = numpy.zeros(tuple(2 * s for s in a.shape), dtype=a.dtype)
+        view = big[tuple(slice(None, None, 2) for _ in a.shape)]
+        view[...] = a
+        return view
+    if label == "neg":                      # negative strides on every axis
+        if a.ndim == 0:
+            return None
+        rev = tuple(slice(None, None, -1) for _ in a.shape)
+        return numpy.ascontiguousarray(a[rev])[rev]
+    if label == "F-slice":                  # a window of a larger Fortran-ordered buffer (what a sub-image of FITS/IDL data is)
+        if a.ndim < 2:
+            return None
+        big = numpy.zeros(tuple(s + 2 for s in a.shape), dtype=a.dtype, order="F")
+        win = tuple(slice(1, -1) for _ in a.shape)
+        big[win] = a
+        return big[win]
+    if label == "readonly":                 # e.g. numpy.broadcast_to / memory-mapped / frombuffer data: any write attempt raises
+        a.setflags(write=False)
+        return a
+    if label == "swapped":                  # non-native byte order (big-endian file data)
+        return a.astype(a.dtype.newbyteorder(">")) if a.dtype.itemsize > 1 else None
+    raise ValueError(label)
+
+
+def layouts(a, rng, labels=("C", "F", "strided")):
+    """the same values as C-ordered, Fortran-ordered and as a strided view of a larger buffer (and, on request, the further
+    layouts of LAYOUT_LABELS)"""
+    for lab in labels:
+        v = relayout(a, lab)
+        if v is not None:
+            yield lab, v
+
+
+def _readonly_write(ex):
+    """is this exception NumPy's refusal to write into a read-only array?"""
+    msg = str(ex).lower()
+    return isinstance(ex, (ValueError, TypeError, RuntimeError)) and ("read-only" in msg or "readonly" in msg or "not writeable" in msg
+                                                                      or "not writable" in msg)
+
+
+def _raised_in_library(ex):
+    """was the exception raised by a statement of the library itself (not inside NumPy/SciPy/Numba called by it)?"""
+    tb = ex.__traceback__
+    last = None
+    while tb is not None:
+        last = tb
+        tb = tb.tb_next
+    fn = last.tb_frame.f_code.co_filename if last is not None else ""
+    return os.path.realpath(fn).startswith(os.path.realpath(common.REPO) + os.sep)
+
+
+def _scribble(res, depth=0):
+    """overwrite every array of a returned value in place (the caller owns what it was given back and may do so)"""
+    if isinstance(res, numpy.ndarray):
+        if res.flags.writeable and res.size:
+            try:
+                res[...] = numpy.nan if res.dtype.kind in "fc" else (7 if res.dtype.kind in "iu" else True if res.dtype.kind == "b" else res.flat[0])
+            except Exception:
+                pass
+    elif isinstance(res, (list, tuple)) and depth < 3:
+        for x in res:
+            _scribble(x, depth + 1)
+    elif isinstance(res, dict) and depth < 3:
+        for x in res.values():
+            _scribble(x, depth + 1)
 
 
 def call_table(rng):
@@ -229,6 +327,7 @@ def call_table(rng):
           ("aotools.image_processing.psf.encircled_energy", [img()], {}),
           ("aotools.interpolation.zoom", [img(), 12], {}),
           ("aotools.interpolation.zoom_rbs", [img(), (12, 10)], {}),
+          # complex images of every complex type (finding layout:zoom_rbs:swapped-complex, fixed by 7531228)
           ("aotools.interpolation.zoom_rbs", [cimg(), 12], {}),
           ("aotools.interpolation.binImgs", [img(), 2], {}),
           ("aotools.interpolation.binImgs", [nprng.integers(0, 9, size=(3, 8, 8)).astype(float), 4], {})]
@@ -254,7 +353,9 @@ def call_table(rng):
           ("aotools.turbulence.atmos_conversions.coherenceTime", [img(4) * 1e-15, img(4), 5e-7], {}),
           ("aotools.turbulence.atmos_conversions.r0_from_slopes", [nprng.normal(size=(2, 4, 10)), 5e-7, 0.1], {}),
           ("aotools.turbulence.profile_compression.equivalent_layers", [numpy.linspace(0, 15000., 10), img(10)[0], 4], {}),
-          ("aotools.turbulence.profile_compression.optimal_grouping", [2, 3, numpy.linspace(0, 15000., 10), img(10)[0]], {}),
+          # (numba-compiled kernel: every further array type costs a recompilation of ~1 s; the layouts of rounds 1-4 only)
+          ("aotools.turbulence.profile_compression.optimal_grouping", [2, 3, numpy.linspace(0, 15000., 10), img(10)[0]], {},
+           {"layouts": ("C", "F"), "dtypes": ("float32", "int64"), "forms": False}),
           ("aotools.functions.zernike.phaseFromZernikes", [numpy.array([0., 1., .5, -2.]), 12], {}),
           ("aotools.functions.zernike.zernikeArray", [[2, 3, 5], 12], {}),
           ("aotools.functions.zernike.zernikeRadialFunc", [4, 2, img() / 50.], {}),
@@ -268,6 +369,7 @@ def call_table(rng):
           ("aotools.functions.karhunenLoeve.stf_vonKarman_yao", [img() / 10., 3.], {}),
           ("aotools.functions.karhunenLoeve.stf_kolmogorov", [img() / 10.], {}),
           # separations containing exact zeros (r >= 0 is the domain; the zero-separation branch is a different code path)
+          # (as lists too: finding form:structure_function_vk:list-zero, fixed by 7b434c5)
           ("aotools.turbulence.slopecovariance.structure_function_vk", [numpy.array([[0., .5, 1.], [2., 0., 3.]]), 0.2, 25.], {}),
           ("aotools.functions.karhunenLoeve.stf_vonKarman", [numpy.array([0., .5, 1., 0.]), 3.], {}),
           ("aotools.turbulence.turb.phase_covariance", [numpy.array([0., .5, 1., 0.]), 0.2, 25.], {}),
@@ -285,6 +387,117 @@ def call_table(rng):
           ("aotools.functions.karhunenLoeve.make_kl", [6, 16], {"ri": 0.25, "nr": 8}),
           ("aotools.functions.karhunenLoeve.make_kl", [10, 16], {"ri": 0.25, "nr": 8}),
           ("aotools.functions.pupil.circle", [3, 8], {})]
+    # ---- round 5: keyword arguments, defaults and second code paths no row (and no test of the repository) ever took
+    hh, pp = numpy.linspace(0, 15000., 10), img(10)[0]
+    covm = nprng.normal(size=(12, 12))
+    covm = (covm @ covm.T).astype("float32")
+    CE, IP = "aotools.image_processing.centroiders.", "aotools.image_processing."
+    n_old = len(T)
+    T += [(CE + "centre_of_gravity", [img()], {"threshold": 0.25, "min_threshold": 20.}),
+          (CE + "centre_of_gravity", [nprng.integers(1, 50, size=(3, 8, 8)).astype(float)], {"threshold": 0.25, "min_threshold": 20.}),
+          (CE + "centre_of_gravity", [nprng.integers(1, 50, size=(2, 3, 6, 8)).astype(float)], {"threshold": 0.1}),
+          (CE + "correlation_centroid", [nprng.integers(1, 50, size=(2, 8, 8)).astype(float), img()], {"threshold": 0.1, "padding": 2}),
+          (CE + "cross_correlate", [img(), img()], {"padding": 2}),
+          (CE + "brightest_pixel", [nprng.integers(1, 50, size=(2, 3, 8, 8)).astype(float), 0.5], {}),
+          (CE + "quadCell", [nprng.integers(1, 50, size=(3, 2, 2)).astype(float)], {}),
+          (IP + "psf.encircled_energy", [img()], {"fraction": 0.8}),
+          (IP + "psf.encircled_energy", [img()], {"center": [3, 4]}),                 # a list the function must leave alone
+          (IP + "psf.encircled_energy", [img()], {"eeDiameter": False}),
+          ("aotools.interpolation.zoom", [img(), (12, 10)], {"order": 1}),
+          ("aotools.interpolation.zoom_rbs", [img(), [12, 10]], {"order": 1}),          # newSize as a list
+          ("aotools.interpolation.zoom_rbs", [img(8, 6), 9], {}),
+          ("aotools.turbulence.atmos_conversions.coherenceTime", [img(4) * 1e-15, img(4), 5e-7], {"axis": 0}),
+          ("aotools.turbulence.atmos_conversions.isoplanaticAngle", [img(4) * 1e-15, img(4) * 100., 5e-7], {"axis": 0}),
+          ("aotools.turbulence.atmos_conversions.rytov_variance", [img(4) * 1e-15, img(4) * 100.], {"axis": 0}),
+          ("aotools.turbulence.profile_compression.equivalent_layers", [hh, pp, 4], {"w": numpy.linspace(5., 30., 10)}),
+          # (a fixed profile: the run time of the minimiser inside GCTM depends strongly on the profile; no dtype variants)
+          ("aotools.turbulence.profile_compression.GCTM", [hh, numpy.array([42., 32., 26., 14., 16., 3., 4., 1., 9., 40.]) * 1e-15, 1],
+           {"h_scaling": 5000., "cn2_scaling": 50e-15}, {"layouts": ("C", "readonly"), "dtypes": False, "forms": False}),
+          ("aotools.functions.zernike.phaseFromZernikes", [numpy.array([0., 1., .5, -2.]), 12], {"rot": 0.4}),
+          ("aotools.functions.zernike.phaseFromZernikes", [numpy.array([0., 1., .5, -2.]), 12], {"norm": "p2v"}),
+          ("aotools.functions.zernike.zernikeArray", [[2, 3, 5], 12], {"norm": "rms"}),
+          ("aotools.functions.zernike.zernikeArray", [[2, 3, 5], 12], {"norm": "p2v", "rot": 0.6}),
+          ("aotools.functions.zernike.zernikeArray", [numpy.array([2, 3, 5]), 12], {}),
+          ("aotools.functions.zernike.zernike_nm", [3, 1, 12], {"rot": 0.3}),
+          ("aotools.functions.zernike.zernike_nm", [3, 1, 13], {}),
+          ("aotools.functions.zernike.makegammas", [3], {}),
+          ("aotools.functions.zernike.zernIndex", [11], {}),
+          ("aotools.functions.pupil.circle", [3, 8], {"circle_centre": (1, -1)}),
+          ("aotools.functions.pupil.circle", [3.5, 9], {"origin": "corner"}),
+          ("aotools.functions.pupil.circle", [3, 8], {"circle_centre": [1.5, 0.5], "origin": "corner"}),
+          ("aotools.functions._functions.gaussian2d", [(8, 10), (2., 3.)], {"amplitude": 3., "cent": (2., 5.)}),
+          ("aotools.functions._functions.gaussian2d", [8, 2.], {"cent": [2., 5.]}),
+          ("aotools.functions._functions.gaussian2d", [[8, 10], [2., 3.]], {"cent": numpy.array([2., 5.])}),
+          ("aotools.wfs.wfslib.findActiveSubaps", [4, (img(16) > 10).astype(float), 0.5], {"returnFill": True}),
+          ("aotools.astronomy._astronomy.photons_per_band", [5., (img() > 10).astype(float), 0.1, 0.01], {"waveband": "K"}),
+          ("aotools.astronomy._astronomy.photons_per_mag", [5., (img() > 10).astype(float), 0.1, 0.09, 0.01], {}),
+          ("aotools.astronomy._astronomy.magnitude_to_flux", [5.], {"waveband": "r"}),
+          ("aotools.astronomy._astronomy.flux_to_magnitude", [3e4], {"waveband": "J"}),
+          ("aotools.turbulence.slopecovariance.create_tomographic_covariance_reconstructor", [covm, 2], {}),
+          ("aotools.turbulence.slopecovariance.create_tomographic_covariance_reconstructor", [covm, 2], {"svd_conditioning": 1e-2}),
+          ("aotools.turbulence.slopecovariance.calculate_structure_function", [img(16)], {"nbOfPoint": 3, "step": 2}),
+          ("aotools.turbulence.slopecovariance.calculate_wfs_seperations", [3, 2, nprng.normal(size=(3, 2)), nprng.normal(size=(2, 2))], {}),
+          ("aotools.turbulence.slopecovariance.wfs_covariance", [3, 2, nprng.normal(size=(3, 2)), nprng.normal(size=(2, 2)), 0.5, 0.6, 0.15, 25.], {}),
+          ("aotools.turbulence.slopecovariance.compute_covariance_xy", [nprng.normal(size=(3, 2, 2)), 0.5, 0.6, 0.15, 25.], {}),
+          ("aotools.turbulence.phasescreen.ft_phase_screen", [0.1, 15, 0.05, 20., 0.01], {"seed": 3}),       # odd N
+          ("aotools.turbulence.phasescreen.ft_sh_phase_screen", [0.1, 15, 0.05, 20., 0.01], {"seed": 3}),
+          ("aotools.turbulence.infinitephasescreen.find_allowed_size", [13], {}),
+          ("aotools.functions.karhunenLoeve.make_kl", [6, 16], {"ri": 0.25, "nr": 8, "mask": False}),
+          ("aotools.functions.karhunenLoeve.make_kl", [6, 15], {"nr": 8}),
+          ("aotools.functions.karhunenLoeve.gkl_radii", [0.25, 8], {}),
+          ("aotools.functions.karhunenLoeve.piston_orth", [6], {}),
+          ("aotools.functions.karhunenLoeve.radii", [8, 12, 0.25], {}),
+          ("aotools.functions.karhunenLoeve.polang", [img(4) / 50.], {})]
+    # (these rows: four layouts, two other dtypes, list and 0-d forms — the full set of variants is applied to the rows above)
+    T[n_old:] = [r if len(r) > 3 else r + ({"layouts": ("C", "F", "neg", "readonly"), "dtypes": ("float32", "uint8", "complex64")},) for r in T[n_old:]]
+    # ---- round 5: LARGE arrays (beyond 2^16 and 2^18 elements: past any small-input path, past the size where NumPy / SciPy switch
+    # to blocked or multi-threaded kernels); three layouts only, no dtype variants, to keep the cost down
+    BIG = {"layouts": ("C", "F", "readonly"), "dtypes": False, "forms": False, "once": True}
+
+    def bimg(n, m=None):
+        return nprng.integers(1, 50, size=(n, m or n)).astype(float)
+
+    def bcimg(n):
+        return nprng.normal(size=(n, n)) + 1j * nprng.normal(size=(n, n))
+    T += [(CE + "centre_of_gravity", [bimg(300)], {"threshold": 0.25}, BIG),
+          (CE + "centre_of_gravity", [nprng.integers(1, 50, size=(20, 128, 128)).astype(float)], {"threshold": 0.25}, BIG),
+          (CE + "brightest_pixel", [bimg(520), 0.3], {}, BIG),
+          (CE + "brightest_pixel", [nprng.integers(1, 50, size=(20, 128, 128)).astype(float), 0.3], {}, BIG),
+          (CE + "quadCell", [nprng.integers(1, 50, size=(40000, 2, 2)).astype(float)], {}, BIG),
+          (CE + "cross_correlate", [bimg(300), bimg(300)], {}, BIG),
+          (CE + "correlation_centroid", [nprng.integers(1, 50, size=(3, 160, 160)).astype(float), bimg(160)], {"threshold": 0.1}, BIG),
+          (IP + "contrast.rms_contrast", [bimg(520)], {}, BIG),
+          (IP + "contrast.image_contrast", [bimg(520)], {}, BIG),
+          (IP + "psf.azimuthal_average", [bimg(128)], {}, dict(BIG, layouts=("C", "readonly"))),      # (a slow Python loop per radius)
+          (IP + "psf.encircled_energy", [bimg(300)], {}, dict(BIG, layouts=("C", "readonly"))),
+          ("aotools.interpolation.zoom_rbs", [bimg(300), 330], {}, BIG),
+          ("aotools.interpolation.binImgs", [bimg(520), 4], {}, BIG),
+          ("aotools.interpolation.binImgs", [nprng.integers(0, 9, size=(20, 128, 128)).astype(float), 2], {}, BIG),
+          ("aotools.fouriertransform.ft", [nprng.normal(size=70001) + 0j, 0.5], {}, BIG),
+          ("aotools.fouriertransform.rft", [nprng.normal(size=70000), 0.5], {}, BIG),
+          ("aotools.fouriertransform.ft2", [bcimg(520), 0.5], {}, BIG),
+          ("aotools.fouriertransform.ift2", [bcimg(520), 0.5], {}, BIG),
+          ("aotools.fouriertransform.rft2", [bimg(520), 0.5], {}, BIG),
+          ("aotools.fouriertransform.irft2", [bcimg(520)[:, :261], 0.5], {}, BIG),
+          ("aotools.opticalpropagation.angularSpectrum", [bcimg(300), 5e-7, 0.01, 0.012, 100.], {}, BIG),
+          ("aotools.opticalpropagation.oneStepFresnel", [bcimg(300), 5e-7, 0.01, 100.], {}, BIG),
+          ("aotools.opticalpropagation.twoStepFresnel", [bcimg(300), 5e-7, 0.01, 0.012, 100.], {}, BIG),
+          ("aotools.opticalpropagation.lensAgainst", [bcimg(300), 5e-7, 0.01, 1.], {}, BIG),
+          ("aotools.turbulence.phasescreen.ft_phase_screen", [0.1, 300, 0.05, 20., 0.01], {"seed": 3}),
+          ("aotools.turbulence.slopecovariance.structure_function_vk", [bimg(300) / 10., 0.2, 25.], {}, BIG),
+          ("aotools.turbulence.slopecovariance.structure_function_kolmogorov", [bimg(520) / 10., 0.2], {}, BIG),
+          ("aotools.turbulence.slopecovariance.calculate_structure_function", [bimg(300)], {"nbOfPoint": 4}, BIG),
+          ("aotools.turbulence.slopecovariance.mirror_covariance_matrix", [numpy.tril(bimg(600)).astype("float32")], {}, BIG),
+          ("aotools.turbulence.turb.phase_covariance", [bimg(300) / 10., 0.2, 25.], {}, BIG),
+          ("aotools.turbulence.temporal_ps.calc_slope_temporalps", [nprng.normal(size=(2, 4096, 20))], {}, BIG),
+          ("aotools.functions.zernike.zernikeRadialFunc", [4, 2, bimg(520) / 50.], {}, BIG),
+          ("aotools.functions.zernike.zernikeArray", [6, 300], {}),
+          ("aotools.functions.zernike.zernikeArray", [6, 300], {"norm": "rms"}),
+          ("aotools.functions.pupil.circle", [250, 600], {}),
+          ("aotools.functions.karhunenLoeve.rebin", [bimg(512), (64, 64)], {}, BIG),
+          ("aotools.functions.karhunenLoeve.stf_vonKarman", [bimg(300) / 10., 3.], {}, BIG),
+          ("aotools.functions.karhunenLoeve.stf_kolmogorov", [bimg(520) / 10.], {}, BIG),
+          ("aotools.wfs.wfslib.findActiveSubaps", [40, (bimg(520) > 10).astype(float), 0.5], {}, BIG)]
     return T
 
 
@@ -293,7 +506,7 @@ def resolve(path):
     return getattr(importlib.import_module(mod), name)
 
 
-def dynamic(chk, rec, public, quick):
+def dynamic(chk, rec, public, quick, table=None):
     # (a) the repository's own test-suite as a corpus of realistic calls
     import pytest
     buf = io.StringIO()
@@ -304,60 +517,105 @@ def dynamic(chk, rec, public, quick):
         except SystemExit:
             pass
     chk.count("dynamic:test-suite-calls", sum(rec.calls.values()))
+    import time
+    t_suite = time.time()
     # (b) the call table: each array argument in three memory layouts and three dtypes; results must not depend on the
     #     layout, nor on what was called before (second pass in shuffled order, third pass after a DIFFERENT call of the same
     #     function): "calling any function twice with equal arguments, in any order relative to other calls, returns equal results"
-    table = call_table(chk.rng)
-    runs = []          # (path, label, args, kw, first result, seeded?)
+    table = call_table(chk.rng) if table is None else table
+    inproc = getattr(chk, "c20_inproc", {})
+    runs = []          # (path, label, base args, kw, copy of the first result, seeded?, how to build the arguments)
 
-    def invoke(path, a, kw):
+    def build(a, how):
+        """the call's arguments from the C-ordered base values: `how` = ("layout", label) | ("dtype", name) | ("0d",) | ("list",)"""
+        out = []
+        for x in a:
+            if isinstance(x, numpy.ndarray):
+                if how[0] == "layout":
+                    v = relayout(x, how[1])
+                    if v is None:
+                        return None
+                    out.append(v)
+                elif how[0] == "dtype":
+                    out.append(numpy.array(x, copy=True).astype(how[1]) if how[1] in _dtype_variants(x) else numpy.array(x, copy=True))
+                elif how[0] == "list":
+                    out.append(numpy.array(x, copy=True).tolist())
+                else:
+                    out.append(numpy.array(x, copy=True))
+            elif how[0] == "0d" and isinstance(x, (int, float)) and not isinstance(x, bool):
+                out.append(numpy.array(x))          # a 0-d array where a number is expected: an in-place `x *= ...` would now show
+            else:
+                out.append(copy.deepcopy(x))
+        return out
+
+    def invoke(path, a, kw, how=("layout", "C")):
+        args = build(a, how)
+        kw2 = {k: (numpy.array(v) if how[0] == "0d" and isinstance(v, (int, float)) and not isinstance(v, bool) else copy.deepcopy(v))
+               for k, v in kw.items()}
         with numpy.errstate(all="ignore"), contextlib.redirect_stdout(io.StringIO()):
-            return resolve(path)(*copy.deepcopy(a), **copy.deepcopy(kw))
+            return resolve(path)(*args, **kw2)
 
-    for path, args, kw in table:
+    for row_i, row in enumerate(table):
+        path, args, kw = row[:3]
+        opts = row[3] if len(row) > 3 else {}
         arr_idx = [i for i, a in enumerate(args) if isinstance(a, numpy.ndarray)]
-        variants = [("C", args)]
+        variants = [("C", ("layout", "C"))]
         if arr_idx:
-            variants = []
-            for lay in ("C", "F", "strided"):
-                new = list(args)
-                ok = True
-                for i in arr_idx:
-                    d = dict(layouts(args[i], chk.rng))
-                    if lay not in d:
-                        ok = False
-                        break
-                    new[i] = d[lay]
-                if ok:
-                    variants.append((lay, new))
+            variants = [(lay, ("layout", lay)) for lay in opts.get("layouts", LAYOUT_LABELS)]
             # other dtypes of the same values (many functions legitimately reject some: exceptions are ignored)
-            for dt in ("float32", "int64"):
-                new = list(args)
+            if opts.get("dtypes", True):
+                names = []
                 for i in arr_idx:
-                    if args[i].dtype.kind == "f" and (dt == "float32" or numpy.array_equal(args[i], numpy.round(args[i]))):
-                        new[i] = args[i].astype(dt)
-                if any(new[i].dtype != args[i].dtype for i in arr_idx):
-                    variants.append((dt, new))
+                    names += [d for d in _dtype_variants(args[i]) if d not in names]
+                if isinstance(opts.get("dtypes"), tuple):
+                    names = [d for d in names if d in opts["dtypes"]]
+                variants += [(dt, ("dtype", dt)) for dt in names]
+            if opts.get("forms", True):
+                variants.append(("list", ("list",)))
+        if opts.get("forms", True) and any(isinstance(x, (int, float)) and not isinstance(x, bool) for x in list(args) + list(kw.values())):
+            variants.append(("0d", ("0d",)))
         ref = None
-        for lay, a in variants:
+        ok_C = False
+        for lay, how in variants:
+            if lay in opts.get("skip", ()) or build(args, how) is None:
+                continue
             chk.oracle_cases += 1
-            chk.case(("table", path, lay, json.dumps(kw, sort_keys=True, default=str)),
+            chk.case(("table", path, lay, json.dumps(kw, sort_keys=True, default=str), str([numpy.shape(a) for a in args])),
                      sample={"call": path, "layout": lay, "kwargs": kw} if chk.oracle_cases % 37 == 1 else None)
             chk.count("dynamic:layout:" + lay)
+            rep = {"function": path, "layout": lay, "kwargs": kw, "args": _describe(list(enumerate(build(args, how))))}
             try:
-                res = invoke(path, a, kw)
+                res = invoke(path, args, kw, how)
             except Exception as ex:
-                rec.errors.setdefault(path, "%s: %s" % (type(ex).__name__, str(ex)[:100]))
-                chk.count("dynamic:raised:" + type(ex).__name__)
+                if lay == "readonly" and ok_C and _readonly_write(ex) and _raised_in_library(ex):
+                    # the same call succeeds on a writable array: the function tries to write into its argument
+                    chk.fail("writes-readonly:%s" % path, "%s raises %r on a read-only array and succeeds on a writable one with the same "
+                             "values: it writes into its argument" % (path, ex), rep)
+                else:
+                    rec.errors.setdefault(path if lay == "C" else "%s [%s]" % (path, lay), "%s: %s" % (type(ex).__name__, str(ex)[:100]))
+                    chk.count("dynamic:raised:" + type(ex).__name__)
                 continue
+            if lay == "C":
+                ok_C = True
             seeded = kw.get("seed", 0) is not None and kw.get("random_seed", 0) is not None
-            runs.append((path, lay, a, kw, res, seeded))
-            if lay in ("C", "F", "strided") and seeded and path not in rec.global_rng:
+            try:
+                keep = copy.deepcopy(res)
+            except Exception:
+                keep = res
+            runs.append((path, lay if not opts.get("once") else lay + ":once", args, kw, keep, seeded, how))
+            if lay == "C":
+                inproc[("call", row_i)] = keep
+            # layout / container / 0-d form must not change the result (dtype variants may: single precision)
+            if how[0] != "dtype" and seeded and path not in rec.global_rng:
                 if ref is None:
-                    ref = (lay, res)
-                elif not _equal(ref[1], res, rtol=1e-9):
-                    chk.fail("layout-dependent:%s" % path, "%s returns different results for equal arguments stored %s-ordered and %s-ordered"
-                             % (path, ref[0], lay), {"function": path, "layouts": [ref[0], lay], "kwargs": kw, "args": _describe(list(enumerate(a)))})
+                    ref = (lay, keep)
+                elif not _equal(ref[1], keep, rtol=1e-9):
+                    chk.fail("layout-dependent:%s" % path, "%s returns different results for equal argument values given as variant `%s` and as "
+                             "variant `%s` (memory layout / list / 0-d array)" % (path, ref[0], lay), dict(rep, layouts=[ref[0], lay]))
+            # the caller owns the returned arrays: overwriting them must not reach any later call (a memoised array handed out
+            # without a copy would)
+            if keep is not res:
+                _scribble(res)
     # second pass: shuffled order; third pass: each call again right after another call of the same function with other arguments
     order = list(range(len(runs)))
     chk.rng.shuffle(order)
@@ -366,18 +624,194 @@ def dynamic(chk, rec, public, quick):
         by_fn.setdefault(r[0], []).append(n)
     for phase, seq in (("shuffled", order), ("after-sibling", [m for n in order for m in ([x for x in by_fn[runs[n][0]] if x != n][:1] + [n])])):
         for n in seq:
-            path, lay, a, kw, first, seeded = runs[n]
+            path, lay, a, kw, first, seeded, how = runs[n]
             if not seeded or path in rec.global_rng:
                 continue
+            if phase == "after-sibling" and lay not in ("C", "F", "strided", "float32", "int64", "readonly"):
+                continue          # (cost: the history pass on the layouts / dtypes of rounds 1-4 and on read-only arrays; large rows once)
             try:
-                again = invoke(path, a, kw)
+                again = invoke(path, a, kw, how)
             except Exception:
                 continue
             chk.count("dynamic:replayed:" + phase)
             if not _equal(first, again, rtol=1e-9):
                 chk.fail("history-dependent:%s" % path, "%s returned a different result when called again with equal arguments later in the "
-                         "run (%s pass): its result depends on earlier calls" % (path, phase),
-                         {"function": path, "layout": lay, "kwargs": kw, "phase": phase, "args": _describe(list(enumerate(a)))})
+                         "run (%s pass): its result depends on earlier calls (or on what the caller did to an earlier result)" % (path, phase),
+                         {"function": path, "layout": lay, "kwargs": kw, "phase": phase, "args": _describe(list(enumerate(build(a, how))))})
+            _scribble(again)
+    chk.notes.append("call table (three passes) wall time: %.1fs after the test-suite replay" % (time.time() - t_suite))
+
+
+def _dtype_variants(x):
+    """names of the other dtypes in which the same values can be held exactly (float32 always offered for floats, as before)"""
+    out = []
+    if x.dtype.kind == "f":
+        out.append("float32")
+        if x.size and numpy.array_equal(x, numpy.round(x)):
+            out += ["int64", "int32"]
+            if x.min() >= 0 and x.max() <= 255:
+                out.append("uint8")
+            if x.min() >= 0 and x.max() <= 65535:
+                out.append("uint16")
+    elif x.dtype.kind == "c":
+        out.append("complex64")
+    elif x.dtype.kind == "i":
+        out += ["int32", "float64"]
+    return out
+
+
+def cov_geometry(seed, r0s=(0.2, 0.5), pos=((12., -7.), (0.0, 10.0)), threads=1):
+    """constructor arguments of a small two-WFS CovarianceMatrix (off-axis natural guide star + laser guide star, two layers)"""
+    nx = 4
+    masks = numpy.array([(numpy.random.default_rng(seed + k).random((nx, nx)) < 0.8).astype(int) for k in range(2)])
+    masks[:, 0, 0] = 1
+    return dict(n_wfs=2, pupil_masks=masks, telescope_diameter=4.0, subap_diameters=numpy.array([1.0, 1.0]),
+                gs_altitudes=numpy.array([0.0, 90e3]), gs_positions=numpy.array(pos), wfs_wavelengths=numpy.array([5e-7, 6e-7]),
+                n_layers=2, layer_altitudes=numpy.array([0.0, 5000.]), layer_r0s=numpy.array(r0s), layer_L0s=numpy.array([25.0, 30.0]),
+                threads=threads)
+
+
+SCREEN_PAIRS = (("PhaseScreenVonKarman", dict(nx_size=8, pixel_scale=0.1, r0=0.2, L0=20., random_seed=5),
+                 dict(nx_size=8, pixel_scale=0.25, r0=0.1, L0=7., random_seed=6)),
+                ("PhaseScreenKolmogorov", dict(nx_size=9, pixel_scale=0.1, r0=0.2, L0=20., random_seed=5),
+                 dict(nx_size=9, pixel_scale=0.25, r0=0.1, L0=7., random_seed=6)))
+
+# round 5: THE history without earlier calls.  Everything the run computes in-process is computed after thousands of other calls
+# (the test-suite, the table, other objects), and so are the in-process references it is compared with: a value kept from the
+# FIRST call ever made in the process (a class-level matrix, a module-level cache keyed too coarsely) is then wrong consistently
+# and invisible.  A fresh interpreter, un-instrumented, evaluates a list of calls / objects once, in reverse table order; the
+# parent compares.  It is started before the test-suite replay and collected at the end: no wall time.
+_CHILD = r'''
+import sys, pickle, importlib, io, contextlib
+import numpy
+specs = pickle.loads(sys.stdin.buffer.read())
+out = []
+for spec in specs:
+    try:
+        with numpy.errstate(all="ignore"), contextlib.redirect_stdout(io.StringIO()):
+            if spec[0] == "call":
+                mod, name = spec[1].rsplit(".", 1)
+                r = getattr(importlib.import_module(mod), name)(*spec[2], **spec[3])
+            elif spec[0] == "cov":
+                from aotools.turbulence import slopecovariance as sc
+                r = numpy.array(sc.CovarianceMatrix(**spec[1]).make_covariance_matrix(), copy=True)
+            elif spec[0] == "screen":
+                from aotools.turbulence import infinitephasescreen as ips
+                o = getattr(ips, spec[1])(**spec[2])
+                r = [numpy.array(o.scrn, copy=True)]
+                for _ in range(spec[3]):
+                    o.add_row()
+                    r.append(numpy.array(o.scrn, copy=True))
+        pickle.dumps(r)
+        out.append(("ok", r))
+    except Exception as ex:
+        out.append(("err", "%s: %s" % (type(ex).__name__, ex)))
+sys.stdout.flush()
+sys.__stdout__.buffer.write(b"@@AOVERIF-PICKLE@@" + pickle.dumps(out))
+sys.__stdout__.buffer.flush()
+'''
+
+
+class FreshProcess:
+    def __init__(self, specs):
+        import pickle
+        import subprocess
+        self.specs = specs
+        self.proc = subprocess.Popen([sys.executable, "-W", "ignore", "-c", _CHILD], stdin=subprocess.PIPE, stdout=subprocess.PIPE,
+                                     stderr=subprocess.DEVNULL)
+        self._writer = threading.Thread(target=self._feed, args=(pickle.dumps(specs),), daemon=True)
+        self._writer.start()
+
+    def _feed(self, data):
+        try:
+            self.proc.stdin.write(data)
+            self.proc.stdin.close()
+        except Exception:
+            pass
+
+    def results(self, timeout=300):
+        import pickle
+        self._writer.join(timeout)
+        out = self.proc.stdout.read()
+        self.proc.wait(timeout)
+        mark = b"@@AOVERIF-PICKLE@@"
+        if mark not in out:
+            raise RuntimeError("the fresh-interpreter reference process produced no result (exit code %r)" % self.proc.returncode)
+        return pickle.loads(out.split(mark, 1)[1])
+
+
+def fresh_specs(chk, table):
+    """what the fresh interpreter evaluates: the C-ordered variant of every small table row (reverse order), the two
+    CovarianceMatrix geometries of method_table and the four infinite screens, each alone"""
+    specs, keys = [], []
+    for i in reversed(range(len(table))):
+        row = table[i]
+        opts = row[3] if len(row) > 3 else {}
+        if opts.get("once") or row[0].endswith(".optimal_grouping"):          # large rows (pickle volume); global-RNG finding
+            continue
+        specs.append(("call", row[0], [numpy.array(a, copy=True) if isinstance(a, numpy.ndarray) else copy.deepcopy(a) for a in row[1]],
+                      copy.deepcopy(row[2])))
+        keys.append(("call", i))
+    sd = chk.c20_geometry_seed
+    for name, ctor in (("base", cov_geometry(sd)), ("other", cov_geometry(sd + 7, r0s=(0.11, 0.3), pos=((-20., 3.), (5.0, -4.0))))):
+        specs.append(("cov", ctor))
+        keys.append(("cov", name))
+    for cname, kw, kw_other in SCREEN_PAIRS:
+        for tag, k in (("b", kw_other), ("a", kw)):
+            specs.append(("screen", cname, dict(k), 3 * k["nx_size"] + 5))
+            keys.append(("screen", cname, tag))
+    return specs, keys
+
+
+def compare_fresh(chk, rec, fresh, keys, table):
+    try:
+        res = fresh.results()
+    except Exception as ex:
+        chk.notes.append("fresh-interpreter reference not available: %r" % (ex,))
+        return
+    n_cmp = 0
+    for key, (status, val) in zip(keys, res):
+        mine = chk.c20_inproc.get(key)
+        if mine is None:
+            if status == "ok":
+                # the very call that works first thing in a fresh interpreter raised here, after other calls (and was ignored above)
+                what = (table[key[1]][0] if key[0] == "call" else
+                        "CovarianceMatrix(%s geometry of method_table, seed %d).make_covariance_matrix()" % (key[1], chk.c20_geometry_seed)
+                        if key[0] == "cov" else "%s (object %s of SCREEN_PAIRS) advanced row by row" % (key[1], key[2]))
+                chk.fail("history-dependent:raises:%s" % what, "%s raises late in this run (see the notes: calls that raised) but works as the "
+                         "first call of a fresh interpreter: its behaviour depends on earlier calls / other objects" % what,
+                         {"what": list(key), "kwargs": table[key[1]][2] if key[0] == "call" else None,
+                          "args": _describe(list(enumerate(table[key[1]][1]))) if key[0] == "call" else None})
+            continue
+        if status != "ok":
+            if key[0] != "call":
+                chk.fail("raises:fresh-process:%s" % (key,), "%s raises in a fresh interpreter (%s) but not after other calls" % (key, val),
+                         {"what": list(key)})
+            continue
+        n_cmp += 1
+        chk.count("dynamic:fresh-interpreter-reference")
+        if key[0] == "call":
+            path, args, kw = table[key[1]][:3]
+            if path in rec.global_rng:
+                continue
+            if not _equal(mine, val, rtol=1e-9):
+                chk.fail("history-dependent:%s" % path, "%s returns, late in this run, something else than the same call made first thing in a "
+                         "fresh interpreter: its result depends on earlier calls" % path,
+                         {"function": path, "kwargs": kw, "phase": "fresh-interpreter", "args": _describe(list(enumerate(args)))})
+        elif key[0] == "cov":
+            if not _equal(mine, val, rtol=1e-9):
+                chk.fail("hidden-state:CovarianceMatrix:fresh-interpreter", "CovarianceMatrix(...).make_covariance_matrix() for the `%s` geometry, "
+                         "computed after other CovarianceMatrix objects existed, differs from the same computation alone in a fresh "
+                         "interpreter (largest difference %.3g)" % (key[1], float(numpy.abs(numpy.asarray(mine) - numpy.asarray(val)).max())),
+                         {"class": "aotools.turbulence.slopecovariance.CovarianceMatrix", "geometry": key[1], "seed": chk.c20_geometry_seed})
+        else:
+            bad = [i for i, (p, q) in enumerate(zip(mine, val)) if numpy.asarray(p).tobytes() != numpy.asarray(q).tobytes()]
+            if bad or len(mine) != len(val):
+                kw = [k for c, a, b in SCREEN_PAIRS if c == key[1] for k in ((a,) if key[2] == "a" else (b,))][0]
+                chk.fail("hidden-state:%s:fresh-interpreter" % key[1], "%s(%s) advanced after other screens existed differs (from row %d on) from "
+                         "the same object advanced alone in a fresh interpreter" % (key[1], kw, bad[0] if bad else -1),
+                         {"class": key[1], "kwargs": kw, "first_bad_step": bad[0] if bad else None})
+    chk.notes.append("fresh-interpreter reference: %d results compared" % n_cmp)
 
 
 def method_table(chk, rec):
@@ -419,6 +853,137 @@ def method_table(chk, rec):
             if isinstance(v, numpy.ndarray) and _snap(v) != _snap(ctor[k]):
                 chk.fail("mutates:aotools.turbulence.slopecovariance.CovarianceMatrix:%s" % k,
                          "CovarianceMatrix modified the constructor argument `%s`" % k, rep)
+    # ---- round 5: the other ways of holding the constructor's arguments, the multiprocessing path, two objects alive at once,
+    #      a returned matrix the caller has overwritten
+    geometry = cov_geometry
+
+    def matrix(ctor):
+        return numpy.array(sc.CovarianceMatrix(**ctor).make_covariance_matrix(), copy=True)
+    sd = chk.c20_geometry_seed
+    base = geometry(sd)
+    rep = {"class": "aotools.turbulence.slopecovariance.CovarianceMatrix", "ctor": _describe(list(base.items()))}
+    try:
+        ref = matrix(copy.deepcopy(base))
+        # (a) arguments as nested Python lists / tuples, as Fortran-ordered, read-only and int32 / float32 arrays
+        forms = {"lists": {k: (v.tolist() if isinstance(v, numpy.ndarray) and k != "pupil_masks" else copy.deepcopy(v)) for k, v in base.items()},
+                 "list of masks": dict(copy.deepcopy(base), pupil_masks=[m.copy() for m in base["pupil_masks"]]),
+                 "tuples": {k: (tuple(map(tuple, v.tolist())) if isinstance(v, numpy.ndarray) and v.ndim == 2 else
+                                tuple(v.tolist()) if isinstance(v, numpy.ndarray) and v.ndim == 1 else copy.deepcopy(v)) for k, v in base.items()},
+                 "F-ordered": {k: (relayout(v, "F") if isinstance(v, numpy.ndarray) and v.ndim >= 2 else copy.deepcopy(v)) for k, v in base.items()},
+                 "strided": {k: (relayout(v, "strided") if isinstance(v, numpy.ndarray) else v) for k, v in base.items()},
+                 "read-only": {k: (relayout(v, "readonly") if isinstance(v, numpy.ndarray) else v) for k, v in base.items()},
+                 "int32 masks": dict(copy.deepcopy(base), pupil_masks=base["pupil_masks"].astype(numpy.int32))}
+        for name, ctor in forms.items():
+            chk.oracle_cases += 1
+            chk.case(("method", "CovarianceMatrix", "form", name))
+            chk.count("dynamic:method:ctor-form")
+            snap = {k: _pysnap(v) for k, v in ctor.items()}
+            try:
+                obj = sc.CovarianceMatrix(**ctor)
+                got = numpy.array(obj.make_covariance_matrix(), copy=True)
+                got2 = numpy.array(obj.make_covariance_matrix(), copy=True)
+            except Exception as ex:
+                if name == "read-only" and _readonly_write(ex) and _raised_in_library(ex):
+                    chk.fail("writes-readonly:CovarianceMatrix", "CovarianceMatrix raises %r when its array arguments are read-only: it writes "
+                             "into a constructor argument" % (ex,), dict(rep, form=name))
+                else:
+                    rec.errors.setdefault("CovarianceMatrix [%s]" % name, "%s: %s" % (type(ex).__name__, str(ex)[:100]))
+                continue
+            if not _equal(ref, got, rtol=1e-9) or not _equal(got, got2, rtol=1e-9):
+                chk.fail("form-dependent:CovarianceMatrix.make_covariance_matrix", "CovarianceMatrix built from the same values given as %s "
+                         "returns a different matrix (or a different one on the second call)" % name, dict(rep, form=name))
+            for k, v in ctor.items():
+                if _pysnap(v) != snap[k]:
+                    chk.fail("mutates:aotools.turbulence.slopecovariance.CovarianceMatrix:%s" % k,
+                             "CovarianceMatrix modified the constructor argument `%s` (given as %s)" % (k, name), dict(rep, form=name))
+    except Exception as ex:
+        rec.errors.setdefault("CovarianceMatrix [round 5 forms]", "%s: %s" % (type(ex).__name__, str(ex)[:100]))
+        ref = None
+    try:
+        # (b) serial and multiprocessing paths compute the same matrix (the pool pickles wfs_covariance_mpwrap by name: the
+        #     recording wrapper is taken off that one name for the duration of the call)
+        chk.oracle_cases += 1
+        chk.case(("method", "CovarianceMatrix", "threads=2"))
+        chk.count("dynamic:method:multiprocessing-path")
+        wrapped = sc.wfs_covariance_mpwrap
+        sc.wfs_covariance_mpwrap = getattr(wrapped, "__wrapped_by_aoverif__", wrapped)
+        try:
+            mp = matrix(dict(copy.deepcopy(base), threads=2))
+            mp2 = matrix(dict(copy.deepcopy(base), threads=2))
+        finally:
+            sc.wfs_covariance_mpwrap = wrapped
+        if ref is not None and (not _equal(ref, mp, rtol=1e-9) or not _equal(mp, mp2, rtol=1e-9)):
+            chk.fail("path-dependent:CovarianceMatrix.make_covariance_matrix", "CovarianceMatrix(threads=2).make_covariance_matrix() differs from "
+                     "the serial result for equal arguments (largest difference %.3g)" % float(numpy.abs(ref - mp).max()), dict(rep, threads=2))
+    except Exception as ex:
+        rec.errors.setdefault("CovarianceMatrix [round 5 threads=2]", "%s: %s" % (type(ex).__name__, str(ex)[:100]))
+    try:
+        ref = matrix(copy.deepcopy(base))
+        # (c) two objects alive at once, calls interleaved: each behaves as it does alone
+        chk.oracle_cases += 1
+        chk.case(("method", "CovarianceMatrix", "interleaved"))
+        chk.count("dynamic:method:interleaved-objects")
+        other = geometry(sd + 7, r0s=(0.11, 0.3), pos=((-20., 3.), (5.0, -4.0)))
+        ref_o = matrix(copy.deepcopy(other))
+        chk.c20_inproc[("cov", "other")] = ref_o
+        chk.c20_inproc[("cov", "base")] = ref
+        A, B = sc.CovarianceMatrix(**copy.deepcopy(base)), sc.CovarianceMatrix(**copy.deepcopy(other))
+        a1 = numpy.array(A.make_covariance_matrix(), copy=True)
+        b1 = numpy.array(B.make_covariance_matrix(), copy=True)
+        ra = numpy.array(A.make_tomographic_reconstructor(), copy=True)
+        a2 = numpy.array(A.make_covariance_matrix(), copy=True)
+        rb = numpy.array(B.make_tomographic_reconstructor(), copy=True)
+        Aalone = sc.CovarianceMatrix(**copy.deepcopy(base))
+        Aalone.make_covariance_matrix()
+        ra_alone = numpy.array(Aalone.make_tomographic_reconstructor(), copy=True)
+        if not (_equal(a1, ref, rtol=1e-9) and _equal(b1, ref_o, rtol=1e-9) and _equal(a2, ref, rtol=1e-9) and _equal(ra, ra_alone, rtol=1e-9)):
+            chk.fail("hidden-state:CovarianceMatrix:interleaved-objects", "two CovarianceMatrix objects with different geometry used in turn: "
+                     "one of them returns something else than it does alone", rep)
+        # (d) the caller overwrites the matrix it was given; a new call on the same object still returns the matrix
+        chk.oracle_cases += 1
+        chk.case(("method", "CovarianceMatrix", "result-overwritten"))
+        C = sc.CovarianceMatrix(**copy.deepcopy(base))
+        m = C.make_covariance_matrix()
+        _scribble(m)
+        if not _equal(numpy.array(C.make_covariance_matrix(), copy=True), ref, rtol=1e-9):
+            chk.fail("hidden-state:CovarianceMatrix:result-overwritten", "after the caller overwrote the matrix returned by make_covariance_matrix(), "
+                     "the next call on the same object returns a different matrix", rep)
+    except Exception as ex:
+        rec.errors.setdefault("CovarianceMatrix [round 5 histories]", "%s: %s" % (type(ex).__name__, str(ex)[:100]))
+    # infinite screens: two objects alive at once with DIFFERENT atmospheres but the same size (anything shared between
+    # instances — class-level matrices, a module-level cache keyed by size — shows), for more rows than the screen and the
+    # stencil are long; each must evolve exactly as it does alone
+    for cname, kw, kw_other in SCREEN_PAIRS:
+        cls = getattr(ips, cname)
+        steps = 3 * kw["nx_size"] + 5
+        try:
+            def alone(k):
+                o = cls(**k)
+                out = [numpy.array(o.scrn, copy=True)]
+                for _ in range(steps):
+                    o.add_row()
+                    out.append(numpy.array(o.scrn, copy=True))
+                return out
+            ra, rb = alone(kw), alone(kw_other)
+            chk.c20_inproc[("screen", cname, "a")], chk.c20_inproc[("screen", cname, "b")] = ra, rb
+            A, B = cls(**kw), cls(**kw_other)
+            ha, hb = [numpy.array(A.scrn, copy=True)], [numpy.array(B.scrn, copy=True)]
+            for _ in range(steps):
+                A.add_row()
+                ha.append(numpy.array(A.scrn, copy=True))
+                B.add_row()
+                hb.append(numpy.array(B.scrn, copy=True))
+        except Exception as ex:
+            rec.errors.setdefault(cls.__name__ + " [interleaved]", "%s: %s" % (type(ex).__name__, str(ex)[:100]))
+            continue
+        chk.oracle_cases += 1
+        chk.case(("method", cls.__name__, "interleaved", steps))
+        chk.count("dynamic:method:interleaved-objects")
+        bad = [i for i in range(steps + 1) if ha[i].tobytes() != ra[i].tobytes() or hb[i].tobytes() != rb[i].tobytes()]
+        if bad:
+            chk.fail("hidden-state:%s:interleaved-objects" % cls.__name__, "two %s objects of equal size and different atmospheres advanced in turn: "
+                     "after %d rows one of them differs from the same object advanced alone" % (cls.__name__, bad[0]),
+                     {"class": cls.__name__, "kwargs": kw, "other": kw_other, "first_bad_step": bad[0]})
     for cls, kw in ((ips.PhaseScreenVonKarman, dict(nx_size=8, pixel_scale=0.1, r0=0.2, L0=20., random_seed=3)),
                     (ips.PhaseScreenKolmogorov, dict(nx_size=9, pixel_scale=0.1, r0=0.2, L0=20., random_seed=3))):
         try:
@@ -592,9 +1157,10 @@ def stacks(chk, rec, quick, observed):
             shapes = [(3,), (5,)] + chk.rng.sample([b for b in shapes if b not in ((3,), (5,))], 5)
         for batch in shapes:
             args = build(batch)
-            for lay, stack in layouts(args[0], chk.rng):
-                if lay == "F":
-                    continue
+            # (round 5) the stack also Fortran-ordered, with negative strides and read-only — on the batch shapes (3,) and (2, 3)
+            # in the quick tier, on all of them in the thorough tier
+            labels = ("C", "strided") + (("F", "neg", "readonly") if (not quick or batch in ((3,), (2, 3))) else ())
+            for lay, stack in layouts(args[0], chk.rng, labels):
                 chk.oracle_cases += 1
                 chk.case(("stack", path, batch, lay, tuple(args[0].shape), json.dumps(kw, sort_keys=True)),
                          sample={"call": path, "stack_shape": list(args[0].shape), "batch": list(batch), "layout": lay} if path.endswith(".rft") and batch == (3,) else None)
@@ -686,18 +1252,42 @@ def run(chk):
         except common.LeanError as ex:
             chk.broke("translator", "generated effect terms do not compile / run", str(ex))
     # ---- dynamic side
+    import time
+    tt = [time.time()]
+
+    def lap(name):
+        tt.append(time.time())
+        return "%s %.1fs" % (name, tt[-1] - tt[-2])
+    chk.c20_geometry_seed = chk.rng.getrandbits(30)
+    chk.c20_inproc = {}
+    table = call_table(chk.rng)
+    specs, fresh_keys = fresh_specs(chk, table)
+    try:
+        fresh = FreshProcess(specs)          # runs while the test-suite is replayed
+    except Exception as ex:
+        fresh = None
+        chk.notes.append("fresh-interpreter reference could not be started: %r" % (ex,))
     rec = Recorder()
     public = instrument(rec)
-    dynamic(chk, rec, public, quick)
+    laps = []
+    dynamic(chk, rec, public, quick, table)
+    laps.append(lap("test-suite + call table"))
     method_table(chk, rec)
+    laps.append(lap("methods"))
     seeded_table(chk, rec)
+    laps.append(lap("seeded"))
     observed = [0.]
     stacks(chk, rec, quick, observed)
+    laps.append(lap("stacks"))
+    if fresh is not None:
+        compare_fresh(chk, rec, fresh, fresh_keys, table)
+        laps.append(lap("fresh-interpreter comparison"))
+    chk.notes.append("dynamic side wall time: " + ", ".join(laps))
     chk.notes.append("stack vs items: largest relative difference observed below the 1e-9 tolerance: %.3g" % observed[0])
     chk.count("dynamic:functions-exercised", len([q for q in rec.calls if rec.calls[q]]))
     never = sorted(q for q in (meta or {}) if q not in rec.calls)
     chk.notes.append("public functions never exercised dynamically: %s" % ", ".join(never[:40]))
-    chk.notes.append("calls that raised (ignored): %s" % json.dumps(rec.errors)[:1500])
+    chk.notes.append("calls that raised (ignored): %s" % json.dumps(rec.errors)[:6000])
     for (q, param), ex in sorted(rec.mutations.items()):
         chk.fail("mutates:%s:%s" % (q, param), "%s modifies its argument `%s` (%s)" % (q, param, ex["what"]),
                  {"function": q, "param": param, **ex})
